@@ -93,25 +93,6 @@ def elemSizeVertex (enc : Nat) : Nat := (elemSizeVertexTable.lookup enc).getD 0
 def suitableIntEncoding (v : Nat) : Nat :=
   if v ≤ thrU8 then intEncodingU8 else if v ≤ thrU16 then intEncodingU16 else intEncodingU32
 
-/-- width-selection adequacy: every value up to the argument fits the selected width (for 32-bit arguments) -/
-theorem suitable_fits {n v : Nat} (hn : n < 2 ^ 32) (hv : v ≤ n) :
-    v < 256 ^ elemSizeInt (suitableIntEncoding n) := by
-  unfold suitableIntEncoding
-  split
-  · rename_i h; have : elemSizeInt intEncodingU8 = 1 := by decide
-    rw [this]; simp only [thrU8] at h; omega
-  · split
-    · rename_i h; have : elemSizeInt intEncodingU16 = 2 := by decide
-      rw [this]; simp only [thrU16] at h; omega
-    · have : elemSizeInt intEncodingU32 = 4 := by decide
-      rw [this]; omega
-
-theorem suitable_valid (n : Nat) : suitableIntEncoding n ∈ validIntEncoding ∧ suitableIntEncoding n ≠ intEncodingNone := by
-  unfold suitableIntEncoding
-  split
-  · decide
-  · split <;> decide
-
 /-! ### headers -/
 
 def magicBytes : Bytes := magic.map UInt8.ofNat
@@ -121,17 +102,10 @@ def encFileHeader (fileVersion headerVersion vdim topo nV nE nF nC : Nat) : Byte
   magicBytes ++ leN 1 fileVersion ++ leN 1 headerVersion ++ leN 1 vdim ++ leN 1 topo ++ zeros 4
     ++ leN 8 nV ++ leN 8 nE ++ leN 8 nF ++ leN 8 nC
 
-theorem encFileHeader_length (a b c d e f g h : Nat) : (encFileHeader a b c d e f g h).length = sizeFileHeader := by
-  simp [encFileHeader, magicBytes, magic, sizeFileHeader]
-
 /-- `write(Encoder&, ChunkHeader const&)` followed by payload and zero padding -/
 def encChunk (ty version pad compression flags : Nat) (payload : Bytes) : Bytes :=
   leN 4 ty ++ leN 1 version ++ leN 1 pad ++ leN 1 compression ++ leN 1 flags ++ leN 8 (payload.length + pad)
     ++ payload ++ zeros pad
-
-theorem encChunk_length (ty v pad c fl : Nat) (p : Bytes) :
-    (encChunk ty v pad c fl p).length = sizeChunkHeader + p.length + pad := by
-  simp [encChunk, sizeChunkHeader]; omega
 
 /-- padding the writer chooses: up to the next multiple of 8 (`(len + 7) & ~7`) -/
 def padTo8 (len : Nat) : Nat := (8 - len % 8) % 8
